@@ -51,6 +51,34 @@ def pairs_from(X, y, rng, n=None, repeats=None):
     return idx, yy
 
 
+def index_pattern(rng, n, size):
+    """a 1-D indicator array of a given length into n rows, in one of the shapes callers produce: random, a run, reversed,
+    constant, strided, sorted bootstrap, sorted with as many repeats as skipped rows (same span and length as a run)"""
+    size = max(1, int(size))
+    kind = ['random', 'run', 'reversed', 'constant', 'strided', 'sorted-bootstrap', 'skip-repeat', 'skip-repeat'][int(rng.randint(8))]
+    if kind == 'random' or n < 3:
+        return rng.randint(0, n, size=size)
+    if kind == 'run':
+        m = min(size, n); a = int(rng.randint(0, n - m + 1)); return np.arange(a, a + m)
+    if kind == 'reversed':
+        m = min(size, n); a = int(rng.randint(0, n - m + 1)); return np.arange(a, a + m)[::-1].copy()
+    if kind == 'constant':
+        return np.full(size, int(rng.randint(n)))
+    if kind == 'strided':
+        st = int(rng.randint(2, 4)); return (np.arange(size) * st) % n
+    if kind == 'sorted-bootstrap':
+        return np.sort(rng.randint(0, n, size=size))
+    m = min(max(size, 4), n); a = int(rng.randint(0, n - m + 1))
+    run = np.arange(a, a + m)
+    k = int(rng.randint(1, max(2, (m - 2) // 2 + 1)))
+    inner = rng.permutation(np.arange(1, m - 1))
+    drop, dup = inner[:k], inner[k:2 * k]
+    if len(dup) < len(drop):
+        dup = np.concatenate([dup, np.full(len(drop) - len(dup), 0)])
+    keep = np.setdiff1d(np.arange(m), drop)
+    return np.sort(np.concatenate([run[keep], run[dup]]))
+
+
 def with_repeats(rng, rows, labels=None):
     """the same constraint listed several times, with uneven multiplicities (a constraint listed k times counts k times
     in every documented objective), at random positions"""
